@@ -19,11 +19,11 @@ pub fn node(i: u8) -> Node { unsafe { NODES[i as usize] } }
 pub fn key(i: u8) -> u8 { unsafe { KEYS[i as usize] } }
 pub fn put(i: u8, n: Node) { unsafe { NODES[i as usize] = n; } }
 pub fn put_entry(i: u8, k: u8, n: Node) { unsafe { NODES[i as usize] = n; KEYS[i as usize] = k; } }
-/// signature of a word: (length, first byte, third byte).  Dictionaries are chosen so that signatures are unique
+/// signature of a word: (length, first byte, third byte, last byte).  Dictionaries are chosen so that signatures are unique
 /// (checked by `dict_ok`), which lets the recorder identify a key without a memcmp per dictionary word.
-fn sig(s: &str) -> (usize, u8, u8) {
+fn sig(s: &str) -> (usize, u8, u8, u8) {
     let b = s.as_bytes();
-    (b.len(), if b.len() > 0 { b[0] } else { 0 }, if b.len() > 2 { b[2] } else { 0 })
+    (b.len(), if b.len() > 0 { b[0] } else { 0 }, if b.len() > 2 { b[2] } else { 0 }, if b.len() > 0 { b[b.len() - 1] } else { 0 })
 }
 /// dictionary index of a string (255 when it is not a dictionary word)
 pub fn word_id(s: &str) -> u8 {
@@ -101,9 +101,12 @@ impl Map for KMap {
     type Iter = MapIter;
     fn len(&self) -> usize { self.len as usize - if self.removed != NOT_REMOVED { 1 } else { 0 } }
     fn remove(&mut self, k: &str) -> Option<KV> {
+        // every key of the arena is a dictionary word and words are identified by their signature (`dict_ok`), so key
+        // equality is equality of dictionary indices -- an integer comparison instead of a memcmp per entry
+        let id = word_id(k);
         let mut i = self.start;
         while i < self.start + self.len {
-            if i != self.removed && word(key(i)) == k { self.removed = i; return Some(KV(node(i))); }
+            if i != self.removed && id != 255 && key(i) == id { self.removed = i; return Some(KV(node(i))); }
             i += 1;
         }
         None
@@ -120,7 +123,7 @@ pub fn kind_of(n: Node) -> ValueKind {
 pub fn to_value(n: Node) -> Value<KV> {
     match n {
         Node::Null => Value::Null, Node::Bool(b) => Value::Boolean(b), Node::Int(x) => Value::Integer(x),
-        Node::Neg(x) => Value::NegativeInteger(x), Node::Float(x) => Value::Float(x), Node::Str(k) => Value::String(word(k).to_string()),
+        Node::Neg(x) => Value::NegativeInteger(x), Node::Float(x) => Value::Float(x), Node::Str(k) => Value::String(key_string(k)),
         Node::Seq(s, l) => Value::Sequence(KSeq { start: s, len: l }),
         Node::Map(s, l) => Value::Map(KMap { start: s, len: l, removed: NOT_REMOVED }),
     }
